@@ -297,25 +297,19 @@ theorem stack_top_is_throw_site_partial (entry : Entry) (chain : List Frame) (v 
 
 /-! ### Exception.Error() -/
 
-/-- PARTIAL: calling `.Error()` on the error the host was handed returns (does not panic) provided the thrown
-value can be converted to a string.  Missing: values whose ToString throws — see the witness below. -/
-theorem error_method_total_partial (entry : Entry) (chain : List Frame) (p : Payload) (v : JsVal)
-    (hp : p = .jsThrow v ∨ p = .natPanicVal v)
-    (hsw : ∀ f ∈ chain, f.swallows = false) (hrw : ∀ f ∈ chain, f.rewraps = false)
-    (hu : v.goErrValue = none ∨ (entry ≠ .exported ∧ ∀ f ∈ chain, f.unwraps = false))
-    (hn : hasSplit chain = false) (hv : v.unstringifiable = false) :
-    ∃ ev, (hostRun entry chain p).host = .err ev ∧ ev.errorPanics = false := by
-  obtain ⟨ex, a, b, _⟩ := (identity_preserved entry chain p v hp hsw hrw hu).1 hn
-  exact ⟨.exc ex, a, by simp [ErrVal.errorPanics, Exc.errorPanics, b, hv]⟩
+/-- Full strength: whatever was thrown (also an object whose string conversion throws), through every chain and
+entry, calling `.Error()` on the error the host was handed returns — no Go panic leaves the method. -/
+theorem error_method_total (entry : Entry) (chain : List Frame) (p : Payload) (ev : ErrVal)
+    (h : (hostRun entry chain p).host = .err ev) : ev.errorPanics = false := by
+  cases ev <;> rfl
 
-/-- The code that exists lets a Go panic escape from `Exception.Error()` / `String()` when the thrown object's
-string conversion throws (known finding C14 `error-method-panics-on-unstringifiable-value`, patch in fixes/):
-negation of "Error() never panics" on a concrete witness. -/
-theorem error_method_panics_witness :
-    ¬ (∀ (entry : Entry) (chain : List Frame) (p : Payload) (ev : ErrVal),
-        (hostRun entry chain p).host = .err ev → ev.errorPanics = false) := by
+/-- Regression lemma about `Error()` BEFORE fix fe5ea29 (unguarded `e.val.String()`): for a thrown object whose
+string conversion throws, the host's error is an *Exception on which the old method panicked. -/
+theorem error_method_panics_prefix_witness :
+    ¬ (∀ (entry : Entry) (chain : List Frame) (p : Payload) (ex : Exc),
+        (hostRun entry chain p).host = .err (.exc ex) → ex.errorPanicsPrefix = false) := by
   intro h
-  have := h .runString [] (.jsThrow (.objU 1)) (.exc ⟨.objU 1, .thrower⟩) (by decide)
+  have := h .runString [] (.jsThrow (.objU 1)) ⟨.objU 1, .thrower⟩ (by decide)
   revert this
   decide
 
